@@ -15,7 +15,7 @@ from typing import TYPE_CHECKING, Any
 
 from _griffe.agents.inspector import inspect
 from _griffe.agents.visitor import visit
-from _griffe.collections import LinesCollection
+from _griffe.collections import LinesCollection, _source_lines
 from _griffe.loader import load
 from _griffe.models import Module, Object
 
@@ -283,7 +283,7 @@ def temporary_visited_module(
     code = dedent(code)
     with temporary_pyfile(code, module_name=module_name) as (_, path):
         lines_collection = lines_collection or LinesCollection()
-        lines_collection[path] = code.splitlines()
+        lines_collection[path] = _source_lines(code)
         module = visit(
             module_name,
             filepath=path,
@@ -330,7 +330,7 @@ def temporary_inspected_module(
     """
     with temporary_pyfile(code, module_name=module_name) as (_, path):
         lines_collection = lines_collection or LinesCollection()
-        lines_collection[path] = code.splitlines()
+        lines_collection[path] = _source_lines(code)
         try:
             module = inspect(
                 module_name,
